@@ -1,9 +1,708 @@
 package main
 
+// Frame (modifies-clause) checking, structural: for each public entry point E a
+// whole-program, field-insensitive, flow-insensitive inclusion-based points-to
+// analysis over the SSA of the functions reachable from E decides which abstract
+// objects every store / in-place append / copy / map update may write.  The
+// obligation is writes(F) ∩ forbidden(E) = ∅ for every reachable F, where
+// forbidden(E) is taken from the property statements (DESIGN 2.6, 7.19):
+// package-level variables always; for render/format/walk also the tree, the
+// renderer value and Source.  No SMT solver is involved.
+
+import (
+	"fmt"
+	"go/token"
+	"go/types"
+	"sort"
+	"strings"
+
+	"golang.org/x/tools/go/ssa"
+)
+
 type frameViolation struct {
 	Name string
 	Desc string
 	Pos  string
 }
 
-func (p *Program) frameCheck() []frameViolation { return nil }
+type absObj struct {
+	id    int
+	kind  string // "alloc", "param", "global", "ext"
+	label string
+	pos   token.Pos
+}
+
+type entrySpec struct {
+	key      string   // function key, e.g. "commonmark.Parse"
+	readOnly []string // parameter names whose reachable memory must not be written
+	group    string   // "parse" | "render" | "format" | "walk"
+}
+
+var frameEntries = []entrySpec{
+	{key: "commonmark.Parse", group: "parse"},
+	{key: "commonmark.NewBlockParser", group: "parse"},
+	{key: "commonmark.(*BlockParser).NextBlock", group: "parse"},
+	{key: "commonmark.(*InlineParser).Rewrite", readOnly: []string{"p"}, group: "parse"},
+	{key: "commonmark.ReferenceMap.Extract", readOnly: []string{"source", "node"}, group: "parse"},
+	{key: "commonmark.(*HTMLRenderer).Render", readOnly: []string{"r", "blocks"}, group: "render"},
+	{key: "commonmark.(*HTMLRenderer).AppendBlock", readOnly: []string{"r", "block"}, group: "render"},
+	{key: "commonmark.RenderHTML", readOnly: []string{"blocks", "refMap"}, group: "render"},
+	{key: "format.Format", readOnly: []string{"blocks"}, group: "format"},
+	{key: "commonmark.Walk", readOnly: []string{"node"}, group: "walk"},
+}
+
+type ptAnalysis struct {
+	p        *Program
+	objs     []*absObj
+	pts      map[ssa.Value]map[int]bool
+	contents map[int]map[string]map[int]bool
+	siteObj  map[ssa.Value]int
+	globObj  map[*ssa.Global]int
+	reach    map[*ssa.Function]bool
+	order    []*ssa.Function
+	changed  bool
+	addrTaken map[*ssa.Function]bool
+	extObj   int
+	retVals  map[*ssa.Function][][]ssa.Value // per result index
+	tuple    map[ssa.Value]map[int]map[int]bool
+	nondet   []frameViolation
+}
+
+type writeRec struct {
+	fn    *ssa.Function
+	instr ssa.Instruction
+	objs  map[int]bool
+	what  string
+}
+
+func (a *ptAnalysis) newObj(kind, label string, pos token.Pos) int {
+	o := &absObj{id: len(a.objs), kind: kind, label: label, pos: pos}
+	a.objs = append(a.objs, o)
+	a.contents[o.id] = map[string]map[int]bool{}
+	return o.id
+}
+
+func (a *ptAnalysis) get(v ssa.Value) map[int]bool {
+	switch g := v.(type) {
+	case *ssa.Global:
+		return map[int]bool{a.globalObj(g): true}
+	case *ssa.Const, *ssa.Function, *ssa.Builtin:
+		return nil
+	}
+	return a.pts[v]
+}
+
+func (a *ptAnalysis) globalObj(g *ssa.Global) int {
+	if id, ok := a.globObj[g]; ok {
+		return id
+	}
+	name := g.Name()
+	if g.Pkg != nil {
+		name = g.Pkg.Pkg.Name() + "." + name
+	}
+	id := a.newObj("global", name, g.Pos()) // everything reachable from a global is attributed to it (selfLoop)
+	a.globObj[g] = id
+	return id
+}
+
+func (a *ptAnalysis) add(v ssa.Value, objs map[int]bool) {
+	if len(objs) == 0 {
+		return
+	}
+	s := a.pts[v]
+	if s == nil {
+		s = map[int]bool{}
+		a.pts[v] = s
+	}
+	for o := range objs {
+		if !s[o] {
+			s[o] = true
+			a.changed = true
+		}
+	}
+}
+
+// Memory is partitioned by the static type of the pointer-like value stored
+// or loaded (sound for type-safe code; node.go's unsafe.Pointer round trip
+// stores and loads at type unsafe.Pointer).  A composite value (struct, array,
+// tuple) is the union of its pointer-like leaf types.
+func leafKeys(t types.Type) []string {
+	seen := map[string]bool{}
+	var out []string
+	var rec func(t types.Type, depth int)
+	rec = func(t types.Type, depth int) {
+		if depth > 6 {
+			return
+		}
+		switch u := t.Underlying().(type) {
+		case *types.Pointer, *types.Slice, *types.Map, *types.Chan, *types.Interface, *types.Signature:
+			k := types.TypeString(t, nil)
+			if !seen[k] {
+				seen[k] = true
+				out = append(out, k)
+			}
+		case *types.Basic:
+			if u.Kind() == types.UnsafePointer {
+				if !seen["unsafe.Pointer"] {
+					seen["unsafe.Pointer"] = true
+					out = append(out, "unsafe.Pointer")
+				}
+			}
+		case *types.Struct:
+			for i := 0; i < u.NumFields(); i++ {
+				rec(u.Field(i).Type(), depth+1)
+			}
+		case *types.Array:
+			rec(u.Elem(), depth+1)
+		case *types.Tuple:
+			for i := 0; i < u.Len(); i++ {
+				rec(u.At(i).Type(), depth+1)
+			}
+		}
+	}
+	rec(t, 0)
+	return out
+}
+
+func (a *ptAnalysis) selfLoop(o int) bool {
+	k := a.objs[o].kind
+	return k == "param" || k == "global" || k == "ext"
+}
+
+func (a *ptAnalysis) addContentsT(targets map[int]bool, t types.Type, objs map[int]bool) {
+	if len(objs) == 0 {
+		return
+	}
+	keys := leafKeys(t)
+	for tg := range targets {
+		for _, k := range keys {
+			c := a.contents[tg][k]
+			if c == nil {
+				c = map[int]bool{}
+				a.contents[tg][k] = c
+			}
+			for o := range objs {
+				if !c[o] {
+					c[o] = true
+					a.changed = true
+				}
+			}
+		}
+	}
+}
+
+func (a *ptAnalysis) loadT(ptrs map[int]bool, t types.Type) map[int]bool {
+	out := map[int]bool{}
+	keys := leafKeys(t)
+	for p := range ptrs {
+		if a.selfLoop(p) {
+			out[p] = true
+		}
+		for _, k := range keys {
+			for o := range a.contents[p][k] {
+				out[o] = true
+			}
+		}
+	}
+	return out
+}
+
+func pointerLike(t types.Type) bool {
+	switch u := t.Underlying().(type) {
+	case *types.Pointer, *types.Slice, *types.Map, *types.Chan, *types.Interface, *types.Signature:
+		return true
+	case *types.Struct:
+		for i := 0; i < u.NumFields(); i++ {
+			if pointerLike(u.Field(i).Type()) {
+				return true
+			}
+		}
+	case *types.Array:
+		return pointerLike(u.Elem())
+	case *types.Tuple:
+		for i := 0; i < u.Len(); i++ {
+			if pointerLike(u.At(i).Type()) {
+				return true
+			}
+		}
+	case *types.Basic:
+		return u.Kind() == types.UnsafePointer
+	}
+	return false
+}
+
+func (a *ptAnalysis) site(v ssa.Value, label string) map[int]bool {
+	id, ok := a.siteObj[v]
+	if !ok {
+		id = a.newObj("alloc", label, v.Pos())
+		a.siteObj[v] = id
+	}
+	return map[int]bool{id: true}
+}
+
+// candidates for a call through a function value or an interface method
+func (a *ptAnalysis) dynamicCallees(c *ssa.CallCommon) []*ssa.Function {
+	var out []*ssa.Function
+	if c.IsInvoke() {
+		for _, fn := range a.p.allFuncsIncludingSynthetic() {
+			if fn.Signature.Recv() == nil || fn.Name() != c.Method.Name() {
+				continue
+			}
+			rt := fn.Signature.Recv().Type()
+			if types.Implements(rt, c.Value.Type().Underlying().(*types.Interface)) ||
+				types.Implements(types.NewPointer(rt), c.Value.Type().Underlying().(*types.Interface)) {
+				out = append(out, fn)
+			}
+		}
+		return out
+	}
+	sig, ok := c.Value.Type().Underlying().(*types.Signature)
+	if !ok {
+		return nil
+	}
+	for fn := range a.addrTaken {
+		s2 := fn.Signature
+		if s2.Recv() != nil {
+			continue
+		}
+		if types.Identical(types.NewSignatureType(nil, nil, nil, s2.Params(), s2.Results(), s2.Variadic()),
+			types.NewSignatureType(nil, nil, nil, sig.Params(), sig.Results(), sig.Variadic())) {
+			out = append(out, fn)
+		}
+	}
+	sort.Slice(out, func(i, j int) bool { return out[i].String() < out[j].String() })
+	return out
+}
+
+func (p *Program) allFuncsIncludingSynthetic() []*ssa.Function {
+	return p.allFuncs
+}
+
+// externWrites: which argument indices an external function writes through, and
+// whether its result may alias its arguments.
+func externEffect(name string) (writes []int, aliasArgs bool) {
+	switch {
+	case strings.HasPrefix(name, "(*strings.Builder)."), strings.HasPrefix(name, "(*bytes.Buffer)."):
+		return []int{0}, false
+	case name == "unicode/utf8.EncodeRune":
+		return []int{0}, false
+	case name == "unicode/utf8.AppendRune", strings.HasPrefix(name, "strconv.Append"):
+		return []int{0}, true
+	case strings.HasPrefix(name, "bytes.Trim"), name == "bytes.TrimSpace", name == "bytes.Fields":
+		return nil, true
+	}
+	return nil, false
+}
+
+func (a *ptAnalysis) transfer(fn *ssa.Function, writes *[]writeRec, record bool) {
+	for _, b := range fn.Blocks {
+		for _, in := range b.Instrs {
+			switch i := in.(type) {
+			case *ssa.Alloc:
+				a.add(i, a.site(i, "alloc "+i.Comment))
+			case *ssa.MakeSlice:
+				a.add(i, a.site(i, "make slice"))
+			case *ssa.MakeMap:
+				a.add(i, a.site(i, "make map"))
+			case *ssa.MakeChan:
+				a.add(i, a.site(i, "make chan"))
+			case *ssa.MakeClosure:
+				s := a.site(i, "closure")
+				a.add(i, s)
+				f := i.Fn.(*ssa.Function)
+				for k, bnd := range i.Bindings {
+					a.add(f.FreeVars[k], a.get(bnd))
+					a.addContentsT(s, bnd.Type(), a.get(bnd))
+				}
+				a.markReach(f)
+			case *ssa.MakeInterface:
+				a.add(i, a.get(i.X))
+			case *ssa.ChangeType:
+				a.add(i, a.get(i.X))
+			case *ssa.ChangeInterface:
+				a.add(i, a.get(i.X))
+			case *ssa.Convert:
+				if pointerLike(i.Type()) && pointerLike(i.X.Type()) {
+					if typeKind(i.Type()) == KSeq && typeKind(i.X.Type()) == KSeq && !types.Identical(i.Type().Underlying(), i.X.Type().Underlying()) {
+						a.add(i, a.site(i, "conversion copy"))
+					} else {
+						a.add(i, a.get(i.X))
+					}
+				} else if pointerLike(i.Type()) {
+					a.add(i, a.site(i, "conversion"))
+				}
+			case *ssa.Slice:
+				a.add(i, a.get(i.X))
+			case *ssa.FieldAddr:
+				a.add(i, a.get(i.X))
+			case *ssa.IndexAddr:
+				a.add(i, a.get(i.X))
+			case *ssa.Field:
+				a.add(i, a.get(i.X))
+			case *ssa.Index:
+				a.add(i, a.get(i.X))
+			case *ssa.Extract:
+				if tp, ok := a.tuple[i.Tuple]; ok {
+					a.add(i, tp[i.Index])
+				}
+				a.add(i, a.get(i.Tuple))
+			case *ssa.Phi:
+				for _, e := range i.Edges {
+					a.add(i, a.get(e))
+				}
+			case *ssa.TypeAssert:
+				a.add(i, a.get(i.X))
+			case *ssa.UnOp:
+				if i.Op == token.MUL {
+					if pointerLike(i.Type()) {
+						a.add(i, a.loadT(a.get(i.X), i.Type()))
+					}
+				} else {
+					a.add(i, a.get(i.X))
+				}
+			case *ssa.Lookup:
+				if pointerLike(i.Type()) {
+					a.add(i, a.loadT(a.get(i.X), i.Type()))
+				}
+			case *ssa.Range:
+				a.add(i, a.get(i.X))
+				if _, isMap := i.X.Type().Underlying().(*types.Map); isMap && record {
+					a.nondet = append(a.nondet, frameViolation{Name: "det:range-over-map@" + a.p.funcName(fn), Desc: "iteration over a map (order is not deterministic)", Pos: a.p.posStr(i.Pos())})
+				}
+			case *ssa.Next:
+				if pointerLike(i.Type()) {
+					a.add(i, a.loadT(a.get(i.Iter), i.Type()))
+				}
+			case *ssa.BinOp:
+				if pointerLike(i.Type()) { // string concatenation
+					a.add(i, a.site(i, "concat"))
+				}
+			case *ssa.Store:
+				if pointerLike(i.Val.Type()) {
+					a.addContentsT(a.get(i.Addr), i.Val.Type(), a.get(i.Val))
+				}
+				if record {
+					*writes = append(*writes, writeRec{fn: fn, instr: i, objs: a.get(i.Addr), what: "store"})
+				}
+			case *ssa.MapUpdate:
+				a.addContentsT(a.get(i.Map), i.Key.Type(), a.get(i.Key))
+				a.addContentsT(a.get(i.Map), i.Value.Type(), a.get(i.Value))
+				if record {
+					*writes = append(*writes, writeRec{fn: fn, instr: i, objs: a.get(i.Map), what: "map update"})
+				}
+			case *ssa.Send:
+				if record {
+					*writes = append(*writes, writeRec{fn: fn, instr: i, objs: a.get(i.Chan), what: "channel send"})
+				}
+			case *ssa.Go:
+				if record {
+					a.nondet = append(a.nondet, frameViolation{Name: "det:go@" + a.p.funcName(fn), Desc: "goroutine started", Pos: a.p.posStr(i.Pos())})
+				}
+				a.callEffects(fn, i, i.Common(), nil, writes, record)
+			case *ssa.Defer:
+				a.callEffects(fn, i, i.Common(), nil, writes, record)
+			case *ssa.Call:
+				a.callEffects(fn, i, i.Common(), i, writes, record)
+			case *ssa.Return:
+			}
+		}
+	}
+}
+
+func (a *ptAnalysis) markReach(f *ssa.Function) {
+	if f == nil || a.reach[f] {
+		return
+	}
+	if !a.p.inScope(f) || len(f.Blocks) == 0 {
+		return
+	}
+	a.reach[f] = true
+	a.order = append(a.order, f)
+	a.changed = true
+}
+
+func (a *ptAnalysis) bindCall(callee *ssa.Function, args []ssa.Value, result ssa.Value) {
+	a.markReach(callee)
+	for k, prm := range callee.Params {
+		if k < len(args) {
+			a.add(prm, a.get(args[k]))
+		}
+	}
+	if result != nil && pointerLike(result.Type()) {
+		_, isTuple := result.Type().(*types.Tuple)
+		for idx, rvs := range a.retVals[callee] {
+			for _, rv := range rvs {
+				if !isTuple {
+					a.add(result, a.get(rv))
+					continue
+				}
+				tp := a.tuple[result]
+				if tp == nil {
+					tp = map[int]map[int]bool{}
+					a.tuple[result] = tp
+				}
+				if tp[idx] == nil {
+					tp[idx] = map[int]bool{}
+				}
+				for o := range a.get(rv) {
+					if !tp[idx][o] {
+						tp[idx][o] = true
+						a.changed = true
+					}
+				}
+			}
+		}
+	}
+}
+
+func (a *ptAnalysis) callEffects(fn *ssa.Function, in ssa.Instruction, c *ssa.CallCommon, result ssa.Value, writes *[]writeRec, record bool) {
+	if b, ok := c.Value.(*ssa.Builtin); ok {
+		switch b.Name() {
+		case "append":
+			s := a.site(in.(ssa.Value), "append")
+			if result != nil {
+				a.add(result, a.get(c.Args[0]))
+				a.add(result, s)
+				et := elemOrSelf(c.Args[0].Type())
+				if len(c.Args) > 1 && pointerLike(et) {
+					a.addContentsT(a.get(result), et, a.loadT(a.get(c.Args[1]), et))
+				}
+				if pointerLike(et) {
+					a.addContentsT(s, et, a.loadT(a.get(c.Args[0]), et))
+				}
+			}
+			if record {
+				*writes = append(*writes, writeRec{fn: fn, instr: in, objs: a.get(c.Args[0]), what: "append (in place when capacity allows)"})
+			}
+		case "copy":
+			if et := elemOrSelf(c.Args[0].Type()); pointerLike(et) {
+				a.addContentsT(a.get(c.Args[0]), et, a.loadT(a.get(c.Args[1]), et))
+			}
+			if record {
+				*writes = append(*writes, writeRec{fn: fn, instr: in, objs: a.get(c.Args[0]), what: "copy"})
+			}
+		case "delete":
+			if record {
+				*writes = append(*writes, writeRec{fn: fn, instr: in, objs: a.get(c.Args[0]), what: "delete"})
+			}
+		case "ssa:wrapnilchk":
+			if result != nil {
+				a.add(result, a.get(c.Args[0]))
+			}
+		}
+		return
+	}
+	var args []ssa.Value
+	if c.IsInvoke() {
+		args = append([]ssa.Value{c.Value}, c.Args...)
+	} else {
+		args = c.Args
+	}
+	callee := c.StaticCallee()
+	if callee != nil {
+		if a.p.inScope(callee) && len(callee.Blocks) > 0 {
+			if mc, ok := c.Value.(*ssa.MakeClosure); ok {
+				_ = mc
+			}
+			a.bindCall(callee, args, result)
+			return
+		}
+		// external function
+		name := callee.String()
+		wr, alias := externEffect(name)
+		for _, k := range wr {
+			if k < len(args) && record {
+				*writes = append(*writes, writeRec{fn: fn, instr: in, objs: a.get(args[k]), what: "call " + name})
+			}
+		}
+		if result != nil && pointerLike(result.Type()) {
+			a.add(result, a.site(result, "result of "+name))
+			if alias {
+				for _, ar := range args {
+					a.add(result, a.get(ar))
+				}
+			}
+		}
+		return
+	}
+	// dynamic: in-package candidates plus an unknown (user-supplied) implementation
+	for _, cand := range a.dynamicCallees(c) {
+		cargs := args
+		a.bindCall(cand, cargs, result)
+	}
+	if result != nil && pointerLike(result.Type()) {
+		// a user callback may return anything it was given or anything of its own
+		a.add(result, map[int]bool{a.extObj: true})
+		for _, ar := range args {
+			a.add(result, a.get(ar))
+		}
+
+	}
+}
+
+func elemOrSelf(t types.Type) types.Type {
+	if e := elemTypeOf(t); e != nil {
+		return e
+	}
+	return t
+}
+
+func (p *Program) funcName(f *ssa.Function) string {
+	if k, ok := p.funcKeys[f]; ok {
+		return k
+	}
+	return f.String()
+}
+
+func (p *Program) posStr(pos token.Pos) string {
+	if !pos.IsValid() {
+		return ""
+	}
+	ps := p.fset.Position(pos)
+	return fmt.Sprintf("%s:%d", shortFile(ps.Filename), ps.Line)
+}
+
+// frameAnalyze runs the analysis for one entry point.
+func (p *Program) frameAnalyze(es entrySpec) (viol []frameViolation, nFuncs int, nWrites int) {
+	entry := p.funcs[es.key]
+	if entry == nil {
+		return []frameViolation{{Name: "frame:" + es.key + "/missing", Desc: "entry point not found"}}, 0, 0
+	}
+	a := &ptAnalysis{p: p, pts: map[ssa.Value]map[int]bool{}, contents: map[int]map[string]map[int]bool{}, siteObj: map[ssa.Value]int{},
+		globObj: map[*ssa.Global]int{}, reach: map[*ssa.Function]bool{}, addrTaken: map[*ssa.Function]bool{}, retVals: map[*ssa.Function][][]ssa.Value{}, tuple: map[ssa.Value]map[int]map[int]bool{}}
+	a.extObj = a.newObj("ext", "value supplied by a user callback", token.NoPos)
+	// functions whose address is taken anywhere in the two packages, and return values
+	for _, f := range p.allFuncs {
+		for _, b := range f.Blocks {
+			for _, in := range b.Instrs {
+				if r, ok := in.(*ssa.Return); ok {
+					for idx, rv := range r.Results {
+						for len(a.retVals[f]) <= idx {
+							a.retVals[f] = append(a.retVals[f], nil)
+						}
+						a.retVals[f][idx] = append(a.retVals[f][idx], rv)
+					}
+				}
+				for _, op := range in.Operands(nil) {
+					if op == nil || *op == nil {
+						continue
+					}
+					if g, ok := (*op).(*ssa.Function); ok {
+						if call, isCall := in.(ssa.CallInstruction); isCall && call.Common().Value == g {
+							continue
+						}
+						a.addrTaken[g] = true
+					}
+					if mc, ok := (*op).(*ssa.MakeClosure); ok {
+						a.addrTaken[mc.Fn.(*ssa.Function)] = true
+					}
+				}
+				if mc, ok := in.(*ssa.MakeClosure); ok {
+					a.addrTaken[mc.Fn.(*ssa.Function)] = true
+				}
+			}
+		}
+	}
+	// package initialisers store closures into the global tables
+	for _, sp := range p.ssaPkgs {
+		if init := sp.Func("init"); init != nil {
+			for _, b := range init.Blocks {
+				for _, in := range b.Instrs {
+					for _, op := range in.Operands(nil) {
+						if op != nil && *op != nil {
+							if g, ok := (*op).(*ssa.Function); ok {
+								a.addrTaken[g] = true
+							}
+						}
+					}
+				}
+			}
+		}
+	}
+	readOnly := map[int]string{}
+	for _, prm := range entry.Params {
+		if !pointerLike(prm.Type()) {
+			continue
+		}
+		id := a.newObj("param", es.key+" parameter "+prm.Name(), prm.Pos())
+		a.add(prm, map[int]bool{id: true})
+		for _, ro := range es.readOnly {
+			if ro == prm.Name() {
+				readOnly[id] = prm.Name()
+			}
+		}
+	}
+	a.markReach(entry)
+	for iter := 0; iter < 200; iter++ {
+		a.changed = false
+		for k := 0; k < len(a.order); k++ {
+			a.transfer(a.order[k], nil, false)
+		}
+		if !a.changed {
+			break
+		}
+	}
+	var writes []writeRec
+	for _, f := range a.order {
+		a.transfer(f, &writes, true)
+	}
+	seen := map[string]bool{}
+	for _, w := range writes {
+		for o := range w.objs {
+			ob := a.objs[o]
+			var name, desc string
+			switch {
+			case ob.kind == "global":
+				// init-time stores happen in the package initialiser, which is not reachable from an entry point
+				name = fmt.Sprintf("frame:%s/writes-global:%s@%s", es.key, ob.label, p.funcName(w.fn))
+				desc = fmt.Sprintf("%s writes package-level state %s (%s)", p.funcName(w.fn), ob.label, w.what)
+			case ob.kind == "param" && readOnly[o] != "":
+				name = fmt.Sprintf("frame:%s/writes-readonly:%s@%s", es.key, readOnly[o], p.funcName(w.fn))
+				desc = fmt.Sprintf("%s may write memory reachable from %s, which %s must leave untouched (%s)", p.funcName(w.fn), ob.label, es.key, w.what)
+			default:
+				continue
+			}
+			if seen[name] {
+				continue
+			}
+			seen[name] = true
+			viol = append(viol, frameViolation{Name: name, Desc: desc, Pos: p.posStr(w.instr.Pos())})
+		}
+	}
+	for _, nd := range a.nondet {
+		n := "frame:" + es.key + "/" + nd.Name
+		if !seen[n] {
+			seen[n] = true
+			viol = append(viol, frameViolation{Name: n, Desc: nd.Desc, Pos: nd.Pos})
+		}
+	}
+	sort.Slice(viol, func(i, j int) bool { return viol[i].Name < viol[j].Name })
+	return viol, len(a.order), len(writes)
+}
+
+type frameSummary struct {
+	Entry     string
+	Functions int
+	Writes    int
+	Viol      []frameViolation
+}
+
+func (p *Program) frameCheckGroups(groups map[string]bool) []frameSummary {
+	var out []frameSummary
+	for _, es := range frameEntries {
+		if groups != nil && !groups[es.group] {
+			continue
+		}
+		v, nf, nw := p.frameAnalyze(es)
+		out = append(out, frameSummary{Entry: es.key, Functions: nf, Writes: nw, Viol: v})
+	}
+	return out
+}
+
+func (p *Program) frameCheck() []frameViolation {
+	var out []frameViolation
+	for _, s := range p.frameCheckGroups(nil) {
+		out = append(out, s.Viol...)
+	}
+	return out
+}
